@@ -24,7 +24,8 @@ BugMutations ==
     ops_null |-> "op-list", ops_emptylist |-> "op-list", ops_object |-> "op-list", ops_string |-> "op-list",
     op_unknown_type |-> "op", op_zero_type |-> "op", op_string_type |-> "op", op_null |-> "op", op_number |-> "op",
     op_missing_type |-> "op", op_bad_title |-> "op-valid", op_control_chars |-> "op-valid", op_short_nonce |-> "op-valid",
-    op_no_nonce |-> "op-valid", op_extra_field |-> "tolerated", op_dup |-> "op-valid", second_create |-> "op-valid",
+    op_no_nonce |-> "op-valid", edit_target_short |-> "op-valid", edit_target_empty |-> "op-valid", edit_target_long |-> "op-valid",
+    edit_target_badchars |-> "op-valid", meta_target_short |-> "op-valid", op_extra_field |-> "tolerated", op_dup |-> "op-valid", second_create |-> "op-valid",
     merge_with_ops |-> "dag", second_root |-> "dag", clock_back |-> "dag", clock_jump |-> "dag",
     ref_other_id |-> "ref", ref_bad_name |-> "ref", empty_history |-> "op-list" ]
 
